@@ -280,6 +280,11 @@ def cli_main():
         while state == STATE_DFU_DNBUSY:
             status, state = dfu_get_status(dev)
 
+        if status != STATUS_OK:
+            print('error setting address:')
+            print(STATUS_DESCRIPTION[status])
+            raise SystemExit('write failed at 0x{:08x} with DFU status {}'.format(addr, status))
+
         # write the code chunk
         dfuse_download(dev, code)
 
